@@ -569,10 +569,20 @@ class SelectionGraphBuilder:
         """Refer to the correct copy of the phi node"""
         vreg = self.function_info.phi_map[node]
         sgnode = self.new_node("REG", node.ty, value=vreg)
+        phi_value = sgnode.new_output(vreg.name)
+        phi_value.vreg = vreg
+
+        # The phi register is written again by the phi copies at the end of
+        # blocks which jump to this block. Take a copy on block entry, such
+        # that uses of the phi value after those copies read the right value.
+        vreg2 = self.new_vreg(node.ty)
+        sgnode = self.new_node("MOV", node.ty, phi_value, value=vreg2)
+        self.chain(sgnode)
+        sgnode = self.new_node("REG", node.ty, value=vreg2)
         output = sgnode.new_output(node.name)
-        output.vreg = vreg
+        output.vreg = vreg2
         self.add_map(node, output)
-        self.debug_db.map(node, vreg)
+        self.debug_db.map(node, vreg2)
 
     def copy_phis_of_successors(self, ir_block):
         """When a terminator instruction is encountered, handle the copy
